@@ -61,8 +61,8 @@ Proof.
   exfalso. apply H. eapply db_decl_named. exact E.
 Qed.
 
-Lemma rebuild_versions d s f n v :
-  alookup v (f_versions (rebuild_family d s f n)) = db_decl d s n v f.
+Lemma rebuild_versions d uc utd s f n v :
+  alookup v (f_versions (rebuild_family d uc utd s f n)) = db_decl d s n v f.
 Proof.
   cbn [rebuild_family f_versions].
   rewrite (alookup_flat_map_guard _ (fun kv : key * vcontent => str_eqb (vname kv) n)
@@ -76,8 +76,8 @@ Proof.
   rewrite X. reflexivity.
 Qed.
 
-Lemma rebuild_tags d s f n t : no_dangling (view d) ->
-  alookup t (f_tags (rebuild_family d s f n)) = db_tag d s n t f.
+Lemma rebuild_tags d uc utd s f n t : no_dangling (view d) ->
+  alookup t (f_tags (rebuild_family d uc utd s f n)) = db_tag d s n t f.
 Proof.
   intro ND. cbn [rebuild_family f_tags].
   rewrite (alookup_flat_map_guard _ (fun kv : key * ccontent => str_eqb (cname kv) n)
@@ -96,43 +96,43 @@ Proof.
   rewrite X. reflexivity.
 Qed.
 
-Lemma rebuild_fdata_lookup d s f n :
-  alookup n (rebuild_fdata d s f) =
-  if mem_str n (db_names d s) && negb (is_nil (f_versions (rebuild_family d s f n)))
-  then Some (rebuild_family d s f n) else None.
+Lemma rebuild_fdata_lookup d uc utd s f n :
+  alookup n (rebuild_fdata d uc utd s f) =
+  if mem_str n (db_names d s) && negb (is_nil (f_versions (rebuild_family d uc utd s f n)))
+  then Some (rebuild_family d uc utd s f n) else None.
 Proof.
   unfold rebuild_fdata.
   rewrite (alookup_flat_map_guard _ (fun _ => true)
-             (fun n => if is_nil (f_versions (rebuild_family d s f n)) then None else Some (rebuild_family d s f n))
+             (fun n => if is_nil (f_versions (rebuild_family d uc utd s f n)) then None else Some (rebuild_family d uc utd s f n))
              (fun n => n)).
-  2:{ intro a. cbv beta zeta. destruct (is_nil (f_versions (rebuild_family d s f a))); reflexivity. }
+  2:{ intro a. cbv beta zeta. destruct (is_nil (f_versions (rebuild_family d uc utd s f a))); reflexivity. }
   assert (E : existsb (fun a => true && str_eqb n a) (db_names d s) = mem_str n (db_names d s)).
   { induction (db_names d s) as [|y l IH]; cbn [existsb mem_str]; [reflexivity|]. rewrite IH. cbn [andb]. destruct (str_eqb n y); reflexivity. }
   rewrite E. destruct (mem_str n (db_names d s)); cbn [andb]; [|reflexivity].
-  destruct (is_nil (f_versions (rebuild_family d s f n))); reflexivity.
+  destruct (is_nil (f_versions (rebuild_family d uc utd s f n))); reflexivity.
 Qed.
 
-Lemma rebuild_agree d s f : no_dangling (view d) -> agree (rebuild_fdata d s f) d s f.
+Lemma rebuild_agree d uc utd s f : no_dangling (view d) -> agree (rebuild_fdata d uc utd s f) d s f.
 Proof.
   intros ND n.
-  assert (NoFam : alookup n (rebuild_fdata d s f) = None -> forall v, db_decl d s n v f = None).
+  assert (NoFam : alookup n (rebuild_fdata d uc utd s f) = None -> forall v, db_decl d s n v f = None).
   { rewrite rebuild_fdata_lookup. intros H v. destruct (db_decl d s n v f) as [r|] eqn:E; [|reflexivity]. exfalso.
     assert (H1 : mem_str n (db_names d s) = true) by (apply mem_str_In; eapply db_decl_named; exact E).
     rewrite H1 in H. cbn [andb] in H.
-    destruct (is_nil (f_versions (rebuild_family d s f n))) eqn:En; [|discriminate].
-    apply is_nil_true in En. pose proof (rebuild_versions d s f n v) as R. rewrite En, E in R. discriminate. }
+    destruct (is_nil (f_versions (rebuild_family d uc utd s f n))) eqn:En; [|discriminate].
+    apply is_nil_true in En. pose proof (rebuild_versions d uc utd s f n v) as R. rewrite En, E in R. discriminate. }
   split; intro k.
-  - unfold fd_decl. destruct (alookup n (rebuild_fdata d s f)) as [fm|] eqn:E.
+  - unfold fd_decl. destruct (alookup n (rebuild_fdata d uc utd s f)) as [fm|] eqn:E.
     + rewrite rebuild_fdata_lookup in E. destruct (_ && _); inversion E. apply rebuild_versions.
     + symmetry. apply NoFam. reflexivity.
-  - unfold fd_tag. destruct (alookup n (rebuild_fdata d s f)) as [fm|] eqn:E.
+  - unfold fd_tag. destruct (alookup n (rebuild_fdata d uc utd s f)) as [fm|] eqn:E.
     + rewrite rebuild_fdata_lookup in E. destruct (_ && _); inversion E. apply rebuild_tags. exact ND.
     + destruct (db_tag d s n k f) as [v|] eqn:Et; [|reflexivity]. exfalso.
       apply (proj1 (no_dangling_db d) ND s n k f v Et). apply NoFam. reflexivity.
 Qed.
 
-Lemma rebuild_lookup_lookup d s f :
-  alookup f (rebuild_lookup d s) = if mem_str f (db_flavors d s) then Some (rebuild_fdata d s f) else None.
+Lemma rebuild_lookup_lookup d uc utd s f :
+  alookup f (rebuild_lookup d uc utd s) = if mem_str f (db_flavors d s) then Some (rebuild_fdata d uc utd s f) else None.
 Proof.
   unfold rebuild_lookup. induction (db_flavors d s) as [|y l IH]; cbn; [reflexivity|].
   destruct (str_eqb_spec f y) as [->|N]; [reflexivity|exact IH].
